@@ -48,6 +48,9 @@ type Scenario struct {
 	OnCloseNested int `json:"onCloseNested,omitempty"`
 	// Role: "" a client connection; "server" the connection a tcp / dtls server creates for an accepted peer
 	Role string `json:"role,omitempty"`
+	// Neighbour (datagram): another connection of the process (its own link, NSTART 1) has a confirmable
+	// request outstanding that its peer never acknowledges - which is nothing to this connection
+	Neighbour bool `json:"neighbour,omitempty"`
 }
 
 type conn interface {
@@ -129,6 +132,19 @@ func Exec(t *testing.T, sc Scenario, r *evid.Run) *evid.Failure {
 					}
 				}
 			})
+		}
+		if sc.Neighbour && sc.Transport == "udp" {
+			link2 := memnet.NewPacketLink(memnet.LinkCfg{LatencyMs: 1})
+			var tk2 endpoints.Ticker
+			other := endpoints.UDP(link2.A, options.WithMessagePool(pool.New(8, 2048)), options.WithPeriodicRunner(tk2.Runner()),
+				options.WithBlockwise(false, 2, time.Second), options.WithTransmission(1, time.Hour, 2))
+			nctx, ncancel := context.WithCancel(context.Background())
+			ndone := make(chan struct{})
+			go func() {
+				defer close(ndone)
+				_, _ = other.Get(nctx, "/held-by-the-neighbour")
+			}()
+			defer func() { ncancel(); <-ndone; _ = other.Close() }()
 		}
 		bubble.Wait()
 		_ = w.FromLib()
@@ -490,6 +506,7 @@ func gen(t *rapid.T) Scenario {
 	if rapid.IntRange(0, 2).Draw(t, "role") == 0 {
 		sc.Role = "server"
 	}
+	sc.Neighbour = sc.Transport == "udp" && rapid.IntRange(0, 2).Draw(t, "neighbour") == 0
 	peers := []string{"silent", "silent", "ack", "garbage", "blocks"}
 	if sc.Transport == "tcp" {
 		peers = append(peers, "stall", "close")
